@@ -1,6 +1,6 @@
 SPECIFICATION SpecMC
 CONSTANTS
-  MaxSteps = 3
+  MaxSteps = 2
   Depth = 0
   OpNames = {"AddParagraph", "AddMathFormula", "AddListItem", "AddFootnote", "AddEndnote", "SetTitle", "AddHeader", "AddFooterWithPageNumber", "AddImage", "AddCellImage", "SetFootnoteConfig", "UpdateStatistics", "AddTemplateBits", "Save", "ToBytes", "AddStyle", "Reopen", "Render", "RenderText", "ConvertMd"}
   TextC = {"ctrl"}
@@ -14,6 +14,7 @@ CONSTANTS
   ReopenC = {"mem"}
   RenderViaC = {"doc", "legacy"}
   RenderImgC = {"none", "png"}
+  PrepC = {TRUE, FALSE}
   TkC = {"image"}
   MkC = {"all"}
   MdViaC = {"file"}
